@@ -414,21 +414,23 @@ def run(ctx):
                     # inserting where nothing was: legitimate only under the None result of content.remove
                     okp = any(dd.startswith("disc(remove(") and ".content" in dd and l_ == "None" for dd, l_, _ in guards(b, i))
                 r.check(okp, "map/%s/#%d/previous=displaced-entry" % (nm, k_), b.loc(line), "previous = %s" % d[:90], "previous is set to `%s`, which is not the entry displaced from the map" % d[:100])
+            ins_blocks = {c.block for c in cc if c.via_name == "insert"}
             for k_, c in enumerate(sorted(cc, key=lambda x: x.line)):
                 starts = [c.target]
+                discharge = set()
+                extra = set()
                 if c.via_name == "remove":
-                    sws = b.result_switches(c)
-                    ve = b.variant_edges(sws[0]["block"]) if sws else None
-                    if not ve or "Some" not in ve:
-                        r.bad("map/%s/%s#%d/result-inspected" % (nm, c.via_name, k_), c.loc(), "the result of content.remove is not inspected")
-                        continue
-                    starts = [ve["Some"]]
-                if c.via_name == "insert" and any(x.via_name == "remove" and b.reaches(x.block, {c.block}) for x in cc):
-                    continue  # re-insertion inside transform_entry: covered by the remove that precedes it
-                ok, wit = b.must_pass(starts, {i for i, j, rv, line in pw})
-                r.check(ok, "map/%s/%s#%d/records-previous" % (nm, c.via_name, k_), c.loc(), "a displaced entry is always recorded as previous", "an entry is displaced from the map without recording it: %s" % wit)
-        if nmap < 6:
-            raise AnchorMissing("expected >= 6 writes of MapStoreInner.previous, found %d" % nmap)
+                    # only a removal that found an entry displaces one: paths that take the None edge of a match on the removed value are excused,
+                    # whichever way the value reached the match; a removed entry that is re-inserted is the insert's obligation
+                    for sb, ve in b.option_edges_from(c):
+                        if ve and "None" in ve:
+                            discharge.add((sb, ve["None"]))
+                    extra = {x for x in ins_blocks if b.reaches(c.block, {x})}
+                ok, wit = b.must_pass_edges(starts, {i for i, j, rv, line in pw} | extra, discharge)
+                r.check(ok, "map/%s/%s#%d/records-previous" % (nm, c.via_name, k_), c.loc(), "a changed entry is always recorded as the pending event (previous)",
+                        "the map is changed by %s without recording the pending event (%s): on_update/on_remove is never run for this change" % (c.via_name, wit))
+        if nmap < 4:
+            raise AnchorMissing("expected >= 4 writes of MapStoreInner.previous, found %d" % nmap)
 
     with ctx.rule("C06.R7", "T1", "on_start runs before any other handler, on_stop last", floor=3) as r:
         ia = [b for b in ag.all_bodies() if b.defpath.endswith("initialize_agent::{closure#0}") and "AgentModel" in b.defpath]
